@@ -45,7 +45,7 @@ def check_history(text):
         return [('C18:harness', 'no INIT line')], {}, ()
     FAIL = 0xffffffff
     succ = [o for o in ops if o['op'] == 0 and o['res'] != FAIL and o['arg'] > 0]
-    stats = {'ops': len(ops), 'grows_ok': len(succ), 'grows_failed': sum(1 for o in ops if o['op'] == 0 and o['res'] == FAIL),
+    stats = {'ops': len(ops), 'frontier_ops': sum(1 for o in ops if o['op'] >= 4), 'grows_ok': len(succ), 'grows_failed': sum(1 for o in ops if o['op'] == 0 and o['res'] == FAIL),
              'growing_threads': len(set(o['t'] for o in succ))}
     # chain
     olds = sorted(succ, key=lambda o: o['res'])
@@ -101,14 +101,18 @@ def check_history(text):
             last[o['t']] = max(last.get(o['t'], 0), v if o['op'] == 0 else seen)
         if o['op'] == 3 and o['res'] != o['arg']:
             V.append(('C18:data-lost', 'thread %d loaded %#x from its private cell, last stored %#x' % (o['t'], o['res'], o['arg'])))
+        if o['op'] == 4 and o['res'] != 0:
+            V.append(('C18:new-page-not-zero', 'thread %d read %#x from a never-written cell of page %d that it had observed to exist (new pages must be zero)' % (o['t'], o['res'], o['arg'])))
+        if o['op'] == 6 and o['res'] != o['arg']:
+            V.append(('C18:data-lost:grown-page', 'thread %d loaded %#x from its private cell in a page added by a grow, last stored %#x (a store made after the new size was observed was undone)' % (o['t'], o['res'], o['arg'])))
     sig = tuple((o['t'], o['arg']) for o in olds[:40])
     return V, stats, sig
 
 
 def opname_of(stack_text):
-    for nm in ('gm_grow', 'gm_size', 'gm_load', 'gm_store'):
+    for nm, short in (('gm_grow', 'grow'), ('gm_size', 'size'), ('gm_load', 'load'), ('gm_store', 'store'), ('wasmMemoryGrow', 'grow'), ('i32_store', 'store'), ('i32_load', 'load')):
         if nm in stack_text:
-            return nm[3:]
+            return short
     return '?'
 
 
@@ -167,6 +171,7 @@ def main(chk):
         chk.ev(stats.get('ops', 0))
         chk.observe('grows_ok', stats.get('grows_ok', 0))
         chk.observe('grows_failed', stats.get('grows_failed', 0))
+        chk.observe('accesses_to_grown_pages', stats.get('frontier_ops', 0))
         chk.observe('histories_' + tag)
         if stats.get('growing_threads', 0) >= 2:
             contended += 1
